@@ -183,6 +183,8 @@ _public_ m_thpool_t *m_thpool_new(uint8_t thread_count, m_thpool_flags flags) {
         pool->max_threads = thread_count;
         pool->flags = flags;
 
+        /* From now on there may be threads to be stopped */
+        pool->init_state |= INITED_STARTED;
         err = 0;
         if (!(flags & M_THPOOL_LAZY)) {
             /* Start worker threads */
@@ -190,11 +192,9 @@ _public_ m_thpool_t *m_thpool_new(uint8_t thread_count, m_thpool_flags flags) {
         }
     } while (false);
     
-    /* Something went wrong; destroy */
+    /* Something went wrong; destroy (stopping any already started thread) */
     if (err != 0) {
         m_thpool_free(&pool, false);
-    } else {
-        pool->init_state |= INITED_STARTED;
     }
     return pool;
 }
